@@ -652,7 +652,7 @@ func (i *interpreter) info(fn *ssa.Function) *fnInfo {
 	case fn.Parent() == nil && externals[fi.name] != nil:
 		fi.kind = 1
 		fi.external = externals[fi.name]
-	case fi.inRepo || interpretableStd[fi.name]:
+	case fi.inRepo || interpretableStd[fi.name] || interpretableStdPrefix(fi.name):
 		fi.kind = 0
 	case fn.Parent() == nil && nativeFuncs[fi.name] != nil:
 		fi.kind = 1
@@ -664,6 +664,19 @@ func (i *interpreter) info(fn *ssa.Function) *fnInfo {
 	}
 	i.fnInfos[fn] = fi
 	return fi
+}
+
+// interpretableStdPrefix: std types whose methods are plain Go over slices (no assembly, no
+// unsafe, no package state) and are interpreted like library code, so that a byte buffer that
+// takes ownership of a slice of the source (bytes.NewBuffer(tok.Value)) writes where the real
+// one writes.
+func interpretableStdPrefix(name string) bool {
+	for _, p := range []string{"(*bytes.Buffer).", "bytes.NewBuffer", "bytes.growSlice"} {
+		if len(name) >= len(p) && name[:len(p)] == p {
+			return true
+		}
+	}
+	return false
 }
 
 // std functions whose SSA bodies may be interpreted (pure, no package state).
